@@ -113,12 +113,13 @@ func TestVerif_C02_e2eh2(t *testing.T) {
 	n := verifh.N(220, 5000)
 	var cl *Client
 	small := false
-	for c := 0; c < n; c++ {
+	fails := 0
+	for c := 0; c < n && fails < 8; c++ { // a broken transport fails (and may stall) every case: stop early
 		if cl == nil || r.Intn(15) == 0 {
 			if cl != nil {
 				cl.GetTransport().CloseIdleConnections()
 			}
-			cl = C().SetTimeout(30 * time.Second).EnableInsecureSkipVerify().EnableForceHTTP2()
+			cl = C().SetTimeout(10 * time.Second).EnableInsecureSkipVerify().EnableForceHTTP2()
 			small = r.Intn(2) == 0
 			if small {
 				cl.SetHTTP2SettingsFrame(http2.Setting{ID: http2.SettingEnablePush, Val: 0}, http2.Setting{ID: http2.SettingInitialWindowSize, Val: 65535})
@@ -155,6 +156,9 @@ func TestVerif_C02_e2eh2(t *testing.T) {
 			// read fails with io.ErrUnexpectedEOF, auto-read fails the whole request
 			class = "h2-nobody-status-content-length"
 			s.Count("204/304+content-length")
+		}
+		if !ok && class == "" {
+			fails++
 		}
 		detail := "got  " + c02Short(view) + "\nwant " + c02Short(want)
 		s.Observe(human+" #"+strconv.Itoa(c), ok, class, sp.bodyAllowed() && len(sp.body) > 0, human, detail)
@@ -237,7 +241,8 @@ func TestVerif_C02_e2eh3(t *testing.T) {
 	n := verifh.N(160, 4000)
 	var cl *Client
 	autoDecomp := false
-	for c := 0; c < n; c++ {
+	fails := 0
+	for c := 0; c < n && fails < 8; c++ {
 		if cl == nil || r.Intn(20) == 0 {
 			if cl != nil {
 				cl.GetTransport().CloseIdleConnections()
@@ -245,7 +250,7 @@ func TestVerif_C02_e2eh3(t *testing.T) {
 					t3.Close()
 				}
 			}
-			cl = C().SetTimeout(30 * time.Second)
+			cl = C().SetTimeout(10 * time.Second)
 			cl.EnableForceHTTP3()
 			if cl.GetTransport().t3 == nil {
 				t.Fatalf("HTTP/3 not enabled (needs go1.22/1.23)")
@@ -283,6 +288,9 @@ func TestVerif_C02_e2eh3(t *testing.T) {
 		}
 		want := sp.expectedView(true)
 		ok := view == want && extraOK
+		if !ok && class == "" {
+			fails++
+		}
 		c02CountSpec(s, sp, mode)
 		detail := "got  " + c02Short(view) + "\nwant " + c02Short(want)
 		s.Observe(human+" #"+strconv.Itoa(c), ok, class, sp.bodyAllowed() && len(sp.body) > 0, human, detail)
